@@ -35,7 +35,15 @@ def run_wr(ctx, what, seed, n, guard=False, mm=2, big=False, timeout=1500, nomem
         try:
             p = subprocess.run(cmd, stdout=subprocess.PIPE, stderr=subprocess.PIPE, text=True, timeout=timeout)
         except subprocess.TimeoutExpired:
-            raise Infra("vh wr timed out")
+            # a driver that no longer makes progress gives no verdict by itself; the scenarios it completed are still judged
+            lines = open(part).read().splitlines() if os.path.exists(part) else []
+            ends = [i for i, l in enumerate(lines) if '"WrEnd"' in l]
+            if not ends:
+                raise Infra("vh wr timed out before completing a scenario")
+            log("note: vh wr made no progress for %ds; judging the %d scenarios it completed" % (timeout, len(ends)))
+            ctx.extra.setdefault("driver_timeouts", []).append({"what": what, "completed_scenarios": len(ends)})
+            out_all.write("\n".join(lines[:ends[-1] + 1]) + "\n")
+            break
         lines = open(part).read().splitlines() if os.path.exists(part) else []
         if p.returncode == 0:
             out_all.write("\n".join(lines) + ("\n" if lines else ""))
